@@ -621,3 +621,44 @@ def guarded_accesses(fn):
                     kind = "ref" if rv[0] in ("ref", "raw") else "r"
                     out.append((b, i, kind, lc, flds, ln, rv))
     return out
+
+
+def resolve_bool(fn, local, depth=6):
+    """(Call, inverted) if the bool local is — through copies, `!` and the non-constant arm of a `&&`/`||` temp —
+    the result of a call; else (None, False)"""
+    inv = False
+    cur = local
+    for _ in range(depth):
+        ds = fn.defs.get(cur, [])
+        calls = [d for d in ds if d[0] == "call"]
+        if len(calls) == 1 and all(d[0] == "call" or (d[0] == "a" and d[3][0] == "use" and d[3][1][0] == "k") for d in ds):
+            return calls[0][2], inv
+        nonconst = [d for d in ds if d[0] == "a" and not (d[3][0] == "use" and d[3][1][0] == "k")]
+        if len(nonconst) != 1 or any(d[0] not in ("a",) for d in ds):
+            return None, False
+        rv = nonconst[0][3]
+        if rv[0] == "use" and rv[1][0] in ("c", "m") and not rv[1][1][1]:
+            cur = rv[1][1][0]
+        elif rv[0] == "un" and rv[1] == "Not" and rv[2][0] in ("c", "m") and not rv[2][1][1]:
+            cur = rv[2][1][0]
+            inv = not inv
+        else:
+            return None, False
+    return None, False
+
+
+def controlling_calls(fn, target_bb):
+    """[(Call, truth)] — bool-returning calls whose outcome `truth` is implied on every path reaching target_bb"""
+    out = []
+    for b in range(fn.n):
+        t = fn.term(b)
+        if t[0] != "switch" or t[4] != "bool" or t[1][0] not in ("c", "m") or t[1][1][1]:
+            continue
+        c, inv = resolve_bool(fn, t[1][1][0])
+        if c is None:
+            continue
+        for v, tgt in switch_edges(t):
+            if fn.edge_dominates(b, tgt, target_bb):
+                truth = (v != 0) != inv
+                out.append((c, truth))
+    return out
